@@ -223,6 +223,18 @@ class Node:
         self.key_issues: list[Telegram] = []
         self.xknx.telegram_queue.register_data_secure_group_key_issue_cb(self.key_issues.append)
 
+    @classmethod
+    def from_keyring(cls, keyring: Any, own_address: int = 0x1001, confirm: bool = True) -> Node:
+        """Node whose Data Secure is set up the way the interface does it: `cemi_handler.data_secure_init(keyring)`."""
+        node = cls({}, {}, own_address=own_address, confirm=confirm)
+        node.reinit(keyring)
+        return node
+
+    def reinit(self, keyring: Any) -> None:
+        """(Re-)initialise Data Secure on the same XKNX from a keyring (what a stop/start of the interface does)."""
+        self.xknx.cemi_handler.data_secure_init(keyring)
+        self.ds = self.xknx.cemi_handler.data_secure  # may be None: no Data Secure information in the keyring
+
     def use_interface(self, iface: Any) -> None:
         self.iface = iface
         self.xknx.knxip_interface = iface
@@ -390,3 +402,60 @@ def other_service_payloads(rng: Any, count: int) -> list[Any]:
         seen.add(name)
         out.append(obj)
     return out
+
+
+# ---------------------------------------------------------------------------
+# keyrings written by the independent writer (vlib/keyring_writer.py, read-only) and loaded by xknx's own loader
+
+KEYRING_PASSWORD = "dsec pässword"
+
+
+def load_project_keyring(project: Any, rng: Any, order: str = "BIGD") -> Any:
+    """Serialise a keyring_writer.Project and load it with xknx.secure.keyring.sync_load_keyring (temporary file, removed)."""
+    import os
+    import tempfile
+
+    from xknx.secure.keyring import sync_load_keyring
+
+    from . import keyring_writer as W
+
+    data = W.serialize(W.build_tree(project, rng, order=order), W.Style())
+    shm = "/dev/shm"
+    fd, path = tempfile.mkstemp(prefix="dsec-", suffix=".knxkeys", dir=shm if os.path.isdir(shm) and os.access(shm, os.W_OK) else None)
+    try:
+        with os.fdopen(fd, "wb") as fh:
+            fh.write(data)
+        return sync_load_keyring(path, project.password)
+    finally:
+        os.unlink(path)
+
+
+def project_tables(project: Any) -> tuple[dict[int, bytes], dict[int, int]]:
+    """What a keyring_writer.Project says, read independently of xknx: ({keyed ga: key}, {sender ia: initial counter})."""
+    keys = {ga: key for ga, key in (project.group_keys or []) if key is not None}
+    senders: dict[int, int] = {}
+    for itf in project.interfaces:
+        for _ga, snd in itf.groups:
+            for ia in snd or []:
+                senders.setdefault(ia, 0)
+    for dev in project.devices or []:
+        senders[dev.ia] = dev.sequence_number or 0
+    return keys, senders
+
+
+def make_project(keys: dict[int, bytes], device_senders: dict[int, int | None], interface_senders: dict[int, list[int]] | None = None,
+                 interfaces_without_groups: int = 0) -> Any:
+    """A small keyring project: group keys, devices (counter or None = no SequenceNumber attribute), interface group lists."""
+    from . import keyring_writer as W
+
+    p = W.Project("dsec", "ETS 6.2.0 (Build 7181)", "2024-03-01T10:00:00", KEYRING_PASSWORD)
+    p.group_keys = list(keys.items())
+    p.devices = [W.PDevice(ia, sequence_number=n) for ia, n in device_senders.items()] if device_senders is not None else None
+    itfs = []
+    if interface_senders:
+        itfs.append(W.PInterface(0x1F01, "Tunneling", host=0x1F00, user_id=2, password="pw", authentication="au",
+                                 groups=[(ga, list(snd)) for ga, snd in interface_senders.items()]))
+    for n in range(interfaces_without_groups):
+        itfs.append(W.PInterface(0x1F10 + n, "Tunneling", host=0x1F00, user_id=3 + n, password="pw", authentication="au", groups=[]))
+    p.interfaces = itfs
+    return p
